@@ -77,7 +77,7 @@ def closure_insert_order(ctx: Ctx, rs: RuleSet, mk):
   clos = None
   for n in own_nodes:
     if isinstance(n, ast.Call) and unparse(n.func).endswith('FunctionType'):
-      clos = kwarg(n, 'closure')
+      clos = roles.deref(mk, kwarg(n, 'closure'))
       if isinstance(clos, ast.Call) and isinstance(
           clos.func, ast.Name) and clos.func.id in ('tuple', 'list') and len(
               clos.args) == 1:
@@ -277,14 +277,31 @@ def run(ctx: Ctx, rs: RuleSet, tier: str):
   mk = ctx.func(f'{AC}.auto_config.make_auto_config')
   g = ctx.cfg(mk)
   fn = mk.params[0]
-  # fn is only rebound to fn.__func__ / method_type(fn)
-  rebinds = [unparse(g.stmt[n].value) for n in g.nodes()
-             if isinstance(g.stmt[n], ast.Assign) and
-             unparse(g.stmt[n].targets[0]) == fn]
+  # fn is only rebound to fn.__func__ / method_type(fn), possibly through a
+  # local that names the decorated object (`orig = fn`)
+  binds = {}
+  for n in g.nodes():
+    if g.stmt[n] is not None and g.kind[n] in ('stmt', 'for', 'with'):
+      for t, kind, v in roles._store_targets(g.stmt[n]):  # pylint: disable=protected-access
+        binds.setdefault(t.id, []).append(v if kind == 'value' else None)
+  same = {fn}
+  while True:
+    more = {k for k, vs in binds.items() if k not in same and len(vs) == 1 and
+            isinstance(vs[0], ast.Name) and vs[0].id in same}
+    if not more:
+      break
+    same |= more
+  rebinds = [unparse(v) if v is not None else '<unpacked>'
+             for v in binds.get(fn, [])]
   # locals holding the method wrapper type: <v> = type(fn)
-  mtypes = roles.assigned_from(mk, lambda e: isinstance(e, ast.Call) and
-                               unparse(e) == f'type({fn})')
-  ok_rebind = set(rebinds) <= ({f'{fn}.__func__'} |
+  mtypes = {k for k, vs in binds.items() if vs and all(
+      v is not None and (
+          (isinstance(v, ast.Call) and unparse(v.func) == 'type' and len(
+              v.args) == 1 and unparse(v.args[0]) in same) or
+          (isinstance(v, ast.Constant) and v.value is None)) for v in vs) and
+            any(isinstance(v, ast.Call) for v in vs)}
+  ok_rebind = set(rebinds) <= ({f'{x}.__func__' for x in same} |
+                               (same - {fn}) |
                                {f'{t}({fn})' for t in mtypes})
   ctor = [c for c in ctx.calls(mk) if p.resolve(c.func, mk) ==
           f'{AC}.AutoConfig']
@@ -371,14 +388,14 @@ def run(ctx: Ctx, rs: RuleSet, tier: str):
       want = cname in ACTIVATABLE
       rets = [r for r in walk_function(m.node) if isinstance(r, ast.Return)]
       routed = len(rets) == 1 and rets[0].value is calls[0]
-      rs.check(routed and is_act == want, rule, m.qualname,
+      rs.check(routed and is_act == want, rule, f'{TR}.visit_{cname}',
                f'routed to the gate with activatable={is_act}' + (
                    '' if is_act == want else
                    f' (expected {want}: {cname} is '
                    f'{"" if want else "never "}supported)'),
                ctx.loc(m, m.node))
     else:
-      rs.check(_always_raises(ctx, m), rule, m.qualname,
+      rs.check(_always_raises(ctx, m), rule, f'{TR}.visit_{cname}',
                'always raises UnsupportedLanguageConstructError',
                ctx.loc(m, m.node))
   # nested defs / lambdas inside the function are rejected
@@ -536,7 +553,10 @@ def run(ctx: Ctx, rs: RuleSet, tier: str):
     c = rets[0].value
     if unparse(c.func) != '_make_partial' or len(c.args) != 3:
       return None
-    if not (_partial_cls_expr(c.args[0]) and unparse(c.args[1]) == f'{va}[0]'
+    # named intermediate results read as the expressions they name
+    pc = c.args[0]
+    c = roles.deref_deep(ch, c)
+    if not (_partial_cls_expr(pc) and unparse(c.args[1]) == f'{va}[0]'
             and isinstance(c.args[2], ast.Starred) and len(c.keywords) == 1 and
             c.keywords[0].arg is None):
       return None
